@@ -10,6 +10,9 @@
       at the copy (HVSRPY_REPO) and must exit 1; the copy is removed immediately.
   python -m sim.selftest seeded [IDS…]
       same, for the independently written changes under /verif/seeded/<id>/patch.diff.
+  python -m sim.selftest controls [IDS…]
+      negative controls: behaviour-preserving refactorings under /verif/controls/<id>/patch.diff;
+      every check must exit 0 on every one of them.
 """
 import argparse
 import copy
@@ -143,9 +146,27 @@ def seeded(ids, all_checks=False):
     return 0 if ok else 2
 
 
+def controls(ids, budget=None):
+    """Negative controls: behaviour-preserving refactorings under /verif/controls/<id>/patch.diff.
+    EVERY check must stay silent (exit 0) on every one of them."""
+    ok = True
+    for d in sorted(glob.glob(os.path.join(VERIF, "controls", "*"))):
+        cid = os.path.basename(d)
+        if ids and cid not in ids:
+            continue
+        for prop in sorted(MACHINE_OF):
+            code, tail = run_against_patch(prop, os.path.join(d, "patch.diff"), budget=budget)
+            good = code == 0
+            ok &= good
+            print(f"control {cid} {prop}: {'SILENT' if good else 'ALARM (exit %s)' % code}", flush=True)
+            if not good:
+                print("   " + tail.replace("\n", "\n   "))
+    return 0 if ok else 2
+
+
 def main():
     ap = argparse.ArgumentParser()
-    ap.add_argument("what", choices=["determinism", "sensitivity", "seeded"])
+    ap.add_argument("what", choices=["determinism", "sensitivity", "seeded", "controls"])
     ap.add_argument("ids", nargs="*")
     ap.add_argument("--runs", type=int, default=0)
     a = ap.parse_args()
@@ -153,6 +174,8 @@ def main():
         return determinism(a.ids or sorted(MACHINE_OF), a.runs)
     if a.what == "sensitivity":
         return sensitivity(a.ids)
+    if a.what == "controls":
+        return controls(a.ids, budget=os.environ.get("VERIF_BUDGET_S"))
     return seeded(a.ids)
 
 
